@@ -13,8 +13,8 @@ from harness import lex_gen as lg
 
 LEVEL = "proof"
 META = {
-    "technique": "Coq proof (token level, on top of the C10 tokenizer model) that the preservation criterion fmt_equiv is an equivalence with a verified boolean checker, and of a Gallina mirror of format_emb.sanity_check_format_result (sound only up to a prefix: refuted witnesses); translation validation of every formatter output produced in the run: format_emb.format_emboss_parse_tree on corpus and generated parseable texts for indent 1..8, output tokenized by the MODEL and compared with the verified criterion; idempotence, no-exception, re-parse and agreement of the built-in self check are observed directly",
-    "level_text": "PARTIAL (proof of the criterion and of the self-check mirror + translation validation of each produced output). Machine-checked (Coq 8.16, no axioms): fmt_equiv (same symbols and same texts modulo surrounding white space after collapsing newline runs, leading ones entirely) is reflexive, symmetric and transitive; fmt_equivb decides it; equivalent token lists feed the parser the same symbol sequence; the model of sanity_check_format_result returns no error exactly when the original is equivalent to a PREFIX of the formatted token list (sanity_ok_iff), hence complete, sound only under a length guard, and refuted without it (extra trailing tokens pass; a shorter list raises IndexError); a line re-tokenises to a given token list iff the local longest-first conditions hold (retokenize_line_partial). PARTIAL: the ~50 per-production handlers and _columnize are not modelled, so 'for all parseable inputs' is not proved; each run certifies the outputs it produced (translation validation by the verified criterion over the C10 model tokenizer).",
+    "technique": "Coq proof (token level, on top of the C10 tokenizer model) that the preservation criterion fmt_equiv is an equivalence with a verified boolean checker, and that a Gallina mirror of format_emb.sanity_check_format_result decides exactly that criterion; translation validation of every formatter output produced in the run: format_emb.format_emboss_parse_tree on corpus and generated parseable texts for indent 1..8, output tokenized by the MODEL and compared with the verified criterion; idempotence, no-exception, re-parse and agreement of the built-in self check are observed directly",
+    "level_text": "PARTIAL (proof of the criterion and of the self-check mirror + translation validation of each produced output). Machine-checked (Coq 8.16, no axioms): fmt_equiv (same symbols and same texts modulo surrounding white space after collapsing newline runs, leading ones entirely) is reflexive, symmetric and transitive; fmt_equivb decides it; equivalent token lists feed the parser the same symbol sequence; the model of sanity_check_format_result (as of fix 7fc177c) returns no error exactly when fmt_equiv holds (sanity_ok_iff), and its two reports mean what they say (sanity_bug_position: first non-equivalent position; sanity_count_differs: one stream equivalent to a strict prefix of the other); a line re-tokenises to a given token list iff the local longest-first conditions hold (retokenize_line_partial). PARTIAL: the ~50 per-production handlers and _columnize are not modelled, so 'for all parseable inputs' is not proved; each run certifies the outputs it produced (translation validation by the verified criterion over the C10 model tokenizer).",
     "level_note": "Trusted: Coq kernel + vm_compute; extraction (ExtrOcamlBasic only) + 40-line OCaml driver, cross-checked on a sample inside Coq; harness/lex_tables.py; the Python parser (parser.parse_module) as the oracle for 'parseable'. Not modelled: format_emb's handlers, _columnize, blank-line insertion, comment re-indentation (growth path in DESIGN.md C11); IR equality after formatting follows from token equivalence only through the parser, which is the subject of C08/C09, not of this check.",
 }
 
@@ -39,7 +39,8 @@ let () =
         | FvOrigNotTokenizable -> "orig-untokenizable" | FvFmtNotTokenizable -> "fmt-untokenizable" in
       let s = match run_sanity f o with
         | SanOrigNotTokenizable -> "orig-untokenizable" | SanFmtNotTokenizable -> "fmt-untokenizable"
-        | SanRes ScOk -> "ok" | SanRes (ScBug i) -> Printf.sprintf "bug %d" (int_of_nat i) | SanRes ScIndexError -> "indexerror" in
+        | SanRes ScOk -> "ok" | SanRes (ScBug i) -> Printf.sprintf "bug %d" (int_of_nat i)
+        | SanRes (ScCount (a, b)) -> Printf.sprintf "count %d %d" (int_of_nat a) (int_of_nat b) in
       print_endline (v ^ ";" ^ s)
     done
   with End_of_file -> ()
@@ -127,7 +128,7 @@ class Impl:
         return self.format_emb.format_emboss_parse_tree(tree, self.format_emb.Config(indent_width=k))
 
     def sanity(self, formatted, original):
-        """-> 'ok' | 'bug i' | 'indexerror' | 'orig-untokenizable' | 'fmt-untokenizable' | 'crash ...'"""
+        """-> 'ok' | 'bug i' | 'count a b' | 'indexerror' (pre-7fc177c) | 'orig-untokenizable' | 'fmt-untokenizable' | 'crash ...'"""
         try:
             r = self.format_emb.sanity_check_format_result(formatted, original)
         except IndexError:
@@ -137,6 +138,9 @@ class Impl:
         if not r:
             return "ok"
         m = r[0]
+        if m.startswith("BUG: Symbol count differs: "):
+            w = m.split()
+            return "count %s %s" % (w[4], w[6])
         if m.startswith("BUG: Symbol "):
             return "bug %s" % m.split()[2]
         if m.startswith("BUG: original text is not tokenizable"):
@@ -456,18 +460,18 @@ def run(ctx):
         return
     impl = Impl()
 
-    # ---- instance: the refuted witnesses on the real table, and their replay on the implementation ----
+    # ---- instance: the self-check theorems on the real table, and the examples replayed on the implementation ----
     inst = os.path.join(fw.GEN, "FmtInstance_C11.v")
     with open(inst, "w") as f:
         f.write("From Coq Require Import NArith List.\nImport ListNotations.\n")
         f.write("Require Import EmbossV.Lex.Regex EmbossV.Lex.Tokenizer EmbossV.Lex.Format EmbossV.Lex.Properties_C11.\n")
         f.write("Require Import EmbossVGen.%s.\n" % GEN_TABLE)
-        f.write("(* formatted \"a\\nb\\n\" against original \"a\\n\": extra trailing tokens pass the self check *)\n")
-        f.write("Theorem inst_sanity_accepts_extra_tokens :\n  sanity_check code_table [97;10;98;10]%N [97;10]%N = SanRes ScOk /\\\n"
-                "  fmt_check code_table [97;10]%N [97;10;98;10]%N = FvDiffer.\nProof. split; vm_compute; reflexivity. Qed.\n")
-        f.write("(* formatted \"a\\n\" against original \"a\\nb\\n\": the self check raises IndexError *)\n")
-        f.write("Theorem inst_sanity_raises :\n  sanity_check code_table [97;10]%N [97;10;98;10]%N = SanRes ScIndexError.\n"
-                "Proof. vm_compute. reflexivity. Qed.\n")
+        f.write("(* formatted \"a\\nb\\n\" against original \"a\\n\" and the converse: both reported as a token-count difference *)\n")
+        f.write("Theorem inst_sanity_reports_count :\n  sanity_check code_table [97;10;98;10]%N [97;10]%N = SanRes (ScCount 2 4) /\\\n"
+                "  fmt_check code_table [97;10]%N [97;10;98;10]%N = FvDiffer /\\\n"
+                "  sanity_check code_table [97;10]%N [97;10;98;10]%N = SanRes (ScCount 4 2).\nProof. repeat split; vm_compute; reflexivity. Qed.\n")
+        f.write("Theorem inst_sanity_ok_iff : forall o f, sanity_tokens code_table o f = ScOk <-> fmt_equiv code_table o f.\n"
+                "Proof. exact (sanity_ok_iff code_table). Qed.\n")
     rc, out = fw.coqc(inst, timeout=600)
     names = fw.theorem_names(inst)
     if rc != 0:
@@ -485,7 +489,7 @@ def run(ctx):
             ctx.violation("audit", "forbidden vernacular in generated files", dict(kind="audit", problems=prob), found_input=False)
     replay = {"sanity_check_format_result('a\\nb\\n', 'a\\n')": impl.sanity("a\nb\n", "a\n"),
               "sanity_check_format_result('a\\n', 'a\\nb\\n')": impl.sanity("a\n", "a\nb\n")}
-    ctx.extra["refuted_witnesses_replayed_on_implementation"] = replay
+    ctx.extra["selfcheck_examples_replayed_on_implementation"] = replay
 
     # ---- inputs ---------------------------------------------------------------------------
     corpus = lg.corpus_files(fw.REPO)
@@ -653,8 +657,8 @@ def run(ctx):
     def sterm(s):
         if s == "ok":
             return "(SanRes ScOk)"
-        if s == "indexerror":
-            return "(SanRes ScIndexError)"
+        if s.startswith("count "):
+            return "(SanRes (ScCount %s%%nat %s%%nat))" % tuple(s.split()[1:3])
         if s.startswith("bug "):
             return "(SanRes (ScBug %s%%nat))" % s.split()[1]
         return {"orig-untokenizable": "SanOrigNotTokenizable", "fmt-untokenizable": "SanFmtNotTokenizable"}.get(s, "SanOrigNotTokenizable")
@@ -703,13 +707,13 @@ def run(ctx):
         ctx.violation("formatter:" + classify(msg), "C11 fails for indent %d on %r...: %s" % (k, small_text[:120], msg),
                       dict(kind="text", text=small_text, indent=k, failure=msg, replay=replay_txt), found_input=True)
         reported += 1
-    # the refuted self-check theorems replayed on the implementation
+    # regression guard for fix 7fc177c (the key is listed as fixed, so this is never suppressed)
     r_extra, r_short = impl.sanity("a\nb\n", "a\n"), impl.sanity("a\n", "a\nb\n")
     if r_extra == "ok" or r_short == "indexerror":
         ctx.violation(KEY_SELFCHECK, "sanity_check_format_result('a\\nb\\n', 'a\\n') -> %s (extra trailing tokens accepted); "
                       "sanity_check_format_result('a\\n', 'a\\nb\\n') -> %s (shorter token list)" % (r_extra, r_short),
                       dict(kind="pair", formatted="a\nb\n", original="a\n",
-                           theorems=["sanity_sound_refuted", "sanity_raises_refuted", "inst_sanity_accepts_extra_tokens", "inst_sanity_raises"],
+                           theorems=["sanity_ok_iff", "inst_sanity_reports_count"], fixed_by="7fc177c",
                            replay="format_emb.sanity_check_format_result(formatted, original) and with the arguments swapped"), found_input=True)
     if disagreements and reported == 0:
         c = disagreements[0]
